@@ -106,3 +106,24 @@ def tuple_eq(got, want):
             return False
         fs.append(T.eq(term_of(g), term_of(w)))
     return T.land(*fs)
+
+
+def same_data(cx, got, want):
+    """`got` is the object `want` or carries the same values (a copy / re-wrapped array of equal shape and elements):
+    forwarding clauses are about the data that arrives, not about object identity"""
+    if got is want:
+        return True
+    if isinstance(got, SArr) and isinstance(want, SArr):
+        if got.ndim != want.ndim:
+            return False
+        if not all(T.same(a, b) or cx.valid(T.eq(a, b)) for a, b in zip(got.shape, want.shape)):
+            return False
+        idx = tuple(cx.fresh("k_same", "int") for _ in want.shape)
+        hyp = T.land(*[T.land(T.ge(i, 0), T.lt(i, e)) for i, e in zip(idx, want.shape)])
+        return bool(cx.valid(T.implies(hyp, T.eq(got.get(idx), want.get(idx)))))
+    if is_scalar(got) and is_scalar(want) and not isinstance(got, (str, type(None))) and not isinstance(want, (str, type(None))):
+        try:
+            return bool(cx.valid(T.eq(term_of(got), term_of(want))))
+        except Exception:
+            return False
+    return False
